@@ -85,6 +85,40 @@ def run(ctx):
         ctx.validate_trace("AdminViewTrace", "AdminViewTrace.cfg", trace, T["clusters"], "admin-views", timeout=3000,
                            key="view-trace")
 
+    # 3b. the same random clusters against an nsqadmin built with Go's race detector: the instrumentation slows the fan-out
+    #     goroutines down unevenly, which widens whatever windows there are between them; the views are judged as above
+    #     (what the detector itself reports is printed as a lead, never a verdict)
+    import subprocess
+    import glob
+    racebin = os.path.join(ctx.scratch, "nsqadmin-race")
+    import vlib
+    p = subprocess.run(["go", "build", "-race", "-o", racebin, "./apps/nsqadmin"], cwd=vlib.REPO, env=ctx.goenv(),
+                       capture_output=True, text=True)
+    if p.returncode == 0:
+        trace2 = os.path.join(ctx.scratch, "adminview-race.ndjson")
+        trep2 = os.path.join(ctx.scratch, "view-trace-race.json")
+        rc, out, err = ctx.run_harness(["view-trace", "--nsqadmin", racebin, "--seed", ctx.seed + 7, "--n", 120 if quick else 1000,
+                                        "--out", trace2, "--report", trep2, "--cells", 8], timeout=3600, name="admin",
+                                       env={"GORACE": "log_path=%s" % os.path.join(ctx.scratch, "race")})
+        if rc != 2 and os.path.exists(trep2):
+            T2 = json.load(open(trep2))
+            if not T2.get("error") and T2["clusters"] > 0:
+                ctx.cov["evaluations"] += T2["views"]
+                ctx.notes["random_clusters_race_build"] = {"clusters": T2["clusters"], "views": T2["views"]}
+                for f in T2.get("findings") or []:
+                    if f["kind"] == "crash":
+                        ctx.violation("%s (random cluster, race-instrumented nsqadmin, seen %d times); GET %s" % (f["what"], f["count"], f["path"]),
+                                      ctx.save_replay("random-race-" + f["key"], f), key=f["key"])
+                ctx.validate_trace("AdminViewTrace", "AdminViewTrace.cfg", trace2, T2["clusters"], "admin-views-race-build",
+                                   timeout=3000, key="view-trace")
+        reports = glob.glob(os.path.join(ctx.scratch, "race.*"))
+        if reports:
+            head = open(reports[0]).read()[:600].replace("\n", " | ")
+            print("RACE-LEAD property=C18 the race detector reported %d data race(s) in nsqadmin, e.g. %s" % (len(reports), head), flush=True)
+            ctx.notes["race_detector_reports"] = len(reports)
+    else:
+        ctx.notes["race_build"] = "not available: " + (p.stdout + p.stderr)[-300:]
+
     if soft and not ctx.violations:
         raise Inconclusive("observations that depend on a deadline or on the child process being killed: " + "; ".join(soft[:5]))
     if soft:
